@@ -16,7 +16,7 @@ from ..engine import rule
 from ..model import Undecided, template_placeholders
 from ..cfg import dotted, call_name, is_call, simple_name, unparse, const_value, contains, enclosing
 from ..flow import Defs, depends, try_const, scoped_defs
-from ..util import keyword, returns_of, calls_in, inside, order_key
+from ..util import resolve1, factors, sum_of_products, keyword, returns_of, calls_in, inside, order_key
 
 NOT_DECIDED = ('that no request whatsoever raises outside the catch-all; decodability and pixel size of image responses; '
                'capabilities documents (service.url) are outside the statement about error documents')
@@ -576,3 +576,50 @@ def c18l(ctx):
                   'the content type is computed from the image options the error image is encoded with', fn, x,
                   fail='the content type of an in-image exception is the raw FORMAT parameter of the (unvalidated) request: "PNG" for WMS 1.0.0, '
                        'arbitrary trailing text otherwise')
+
+
+@rule('C18.m', floor=2)
+def c18m(ctx):
+    """an image answer has the size that was requested: every image the simple (same SRS) transformation declares as `size=dst_size`
+    has that size -- the unresampled crop box is (x0, y0, x0 + dst_size[0], y0 + dst_size[1]) (width and height taken from the
+    requested size, not from two independently rounded corners), the resampled branch transforms to dst_size"""
+    fn = ctx.fn('mapproxy/image/transform.py:ImageTransformer._transform_simple')
+    crops = [x for x in fn.walk() if isinstance(x, ast.Call) and isinstance(x.func, ast.Attribute) and x.func.attr == 'crop' and x.args]
+    if not crops:
+        raise Undecided('_transform_simple: no crop')
+    for x in crops:
+        box = resolve1(x.args[0], Defs(fn.node))         # the box may be given a name first
+        ok = isinstance(box, ast.Tuple) and len(box.elts) == 4
+        if ok:
+            at = fn.cfg.node_for(x)
+            x0, y0, x1, y1 = [fn.canon.expr(e, at=at) for e in box.elts]        # closed forms: sizes may be unpacked into locals
+            # compared as written at the call (x0 / y0 are the already rounded locals): right = left + width, lower = upper + height
+            want = [sorted([factors(x0), ['dst_size[0]']]), sorted([factors(y0), ['dst_size[1]']])]
+            ok = [sum_of_products(x1), sum_of_products(y1)] == want
+        ctx.check(ok, 'ImageTransformer._transform_simple:crop-has-requested-size', 'the crop box spans exactly dst_size from its upper left corner', fn, x,
+                  fail='the crop box %s does not span dst_size from its upper left corner: the image is a pixel larger or smaller than the size it is '
+                       'declared with (the merger returns it as it is for a single opaque layer)' % unparse(box)[:90])
+    trs = [x for x in fn.walk() if isinstance(x, ast.Call) and isinstance(x.func, ast.Attribute) and x.func.attr == 'transform' and x.args]
+    ok = bool(trs) and all(unparse(x.args[0]) == 'dst_size' for x in trs)
+    ctx.check(ok, 'ImageTransformer._transform_simple:resample-to-requested-size', 'the resampled branch transforms to dst_size', fn)
+
+
+@rule('C18.n', floor=2)
+def c18n(ctx):
+    """the HTML of the root page is well-formed whatever Host / X-Forwarded-* headers the request carries: every value that is formatted
+    into the page is a constant, the version string or went through escape_html"""
+    W = 'mapproxy/wsgiapp.py:MapProxyApp.'
+    fn = ctx.repo.with_inlined(ctx.fn(W + '__call__'), ['welcome_response'])
+    n = 0
+    for x in fn.walk():
+        if isinstance(x, ast.BinOp) and isinstance(x.op, ast.Mod) and isinstance(x.left, ast.Constant) and isinstance(x.left.value, str) and '<' in x.left.value:
+            vals = x.right.elts if isinstance(x.right, ast.Tuple) else [x.right]
+            for v in vals:
+                n += 1
+                form = fn.canon.expr(v)
+                safe = isinstance(form, ast.Constant) or unparse(form) == 'mapproxy.version.version' or is_call(form, 'escape_html', 'escape')
+                ctx.check(safe, 'MapProxyApp.welcome_response:html-value-%d' % n, 'the value %s formatted into the page is escaped / constant' % unparse(form)[:50], fn, x,
+                          fail='the request-derived value %s is formatted into the HTML of the root page without escape_html: a Host / X-Forwarded-Host '
+                               'header with markup characters injects elements and attributes' % unparse(form)[:60])
+    if n < 2:
+        raise Undecided('welcome page: only %d formatted values found' % n)
